@@ -43,7 +43,7 @@ ASSUMPTIONS = [
 ]
 
 # the known-defect classes the generators avoid; remove a name once /repo carries the fix and the class is searched again
-EXCLUDED = {'K1', 'K2', 'K3', 'K4'}
+EXCLUDED = {'K4'}
 
 NAN = float('nan')
 FILLS = ('ffill', 'bfill')
